@@ -2,12 +2,14 @@ package env
 
 import (
 	"fmt"
+	"net"
 	"sort"
 	"strings"
 
 	"github.com/256dpi/gomqtt/broker"
 	"github.com/256dpi/gomqtt/packet"
 	"github.com/256dpi/gomqtt/session"
+	"github.com/256dpi/gomqtt/transport"
 
 	"verif/explore"
 	"verif/vrt"
@@ -213,3 +215,27 @@ func StoreDump(s broker.Session, dir session.Direction) string {
 	sort.Strings(ss)
 	return strings.Join(ss, " ")
 }
+
+// FakeServer is a transport.Server whose Accept blocks until Close (lets a
+// harness call Engine.Accept so that Engine.Close has an acceptor to stop).
+type FakeServer struct {
+	closed chan struct{}
+	done   bool
+}
+
+func NewFakeServer() *FakeServer { return &FakeServer{closed: make(chan struct{})} }
+
+func (s *FakeServer) Accept() (transport.Conn, error) {
+	<-s.closed
+	return nil, ErrClosedPipe
+}
+
+func (s *FakeServer) Close() error {
+	if !s.done {
+		s.done = true
+		close(s.closed)
+	}
+	return nil
+}
+
+func (s *FakeServer) Addr() net.Addr { return addr("fake-server") }
